@@ -50,6 +50,15 @@ func main() {
 		rules.DebugErrFlow(p, strings.Split(strings.TrimPrefix(*debug, "errflow:"), ","))
 		return
 	}
+	if strings.HasPrefix(*debug, "indexguard:") {
+		p, err := eng.Load(*repo)
+		if err != nil {
+			fmt.Println(err)
+			os.Exit(1)
+		}
+		rules.DebugIndexGuard(p, strings.Split(strings.TrimPrefix(*debug, "indexguard:"), ","))
+		return
+	}
 	if *replay != "" {
 		os.Exit(doReplay(*repo, vdir, *replay, seed))
 	}
